@@ -1404,6 +1404,18 @@ fn run_valuation(p: &Prep, case_hash: u64, focus: Option<&CellId>, st: &mut Stat
                     st.label("valuation:receivership-healthy:refused".into());
                 }
             }
+            // (3) ... nor does its debt qualify as bad debt: the bankruptcy assessment counts the reduce-only deposit too
+            let cell = CellId::Valuation { which: 3, variant: 0 };
+            if focus.map(|f| *f == cell).unwrap_or(true) {
+                let ix = ro.ix_bankruptcy(O, le.accts[0], ro.roles.admin);
+                let mut vm = ro.vm.clone();
+                if vm.exec(&ix).is_ok() {
+                    return Err(Viol { sig: "gate:ReduceOnly:bankruptcy-of-solvent-account".into(), msg: "handle_bankruptcy wrote off the debt of an account that is healthy at maintenance when its reduce-only deposit is counted".into(), cell });
+                }
+                if focus.is_none() {
+                    st.label("valuation:bankruptcy-solvent:refused".into());
+                }
+            }
         }
     }
     Ok(())
